@@ -57,7 +57,7 @@ func c09Gen(t *rapid.T) c09Case {
 	n := len(c.Reqs)
 	step := rapid.Custom(func(t *rapid.T) c09Step {
 		kind := rapid.SampledFrom([]string{"open", "open", "open", "feed", "feed", "feed", "feed", "wu", "wu", "wu", "wuconn", "wuconn", "wuconn",
-			"settings_win", "settings_win", "settings_frame", "settings_both", "resp", "rst", "cancel", "ping"}).Draw(t, "kind")
+			"settings_win", "settings_win", "settings_win2", "settings_frame", "settings_both", "resp", "rst", "cancel", "ping"}).Draw(t, "kind")
 		s := c09Step{Kind: kind, K: rapid.IntRange(0, n-1).Draw(t, "k")}
 		wins := rapid.SampledFrom([]uint32{0, 1, 10, 100, 16384, 65535, 1 << 18, 1 << 20})
 		frames := rapid.SampledFrom([]uint32{16384, 16385, 20000, 65536, 1<<24 - 1})
@@ -71,6 +71,9 @@ func c09Gen(t *rapid.T) c09Case {
 		case "settings_both":
 			s.V = wins.Draw(t, "win")
 			s.W = frames.Draw(t, "fs")
+		case "settings_win2": // one SETTINGS frame carrying the parameter twice: W first, then V
+			s.V = wins.Draw(t, "win")
+			s.W = wins.Draw(t, "firstWin")
 		case "resp":
 			s.V = rapid.SampledFrom([]uint32{0, 0, 0, 1, 2}).Draw(t, "resp") // 0: 200, 1: 200+END_STREAM, 2: 404
 		case "rst":
@@ -388,10 +391,13 @@ func c09Run(c c09Case, r *vp.Rec) (err error) {
 			}
 			connWin += int64(st.V)
 			s.fr.WriteWindowUpdate(0, st.V)
-		case "settings_win", "settings_both":
+		case "settings_win", "settings_both", "settings_win2":
 			over := false
 			for _, sm := range streams {
 				if sm.win+(int64(st.V)-initWin.eff()) > 1<<31-1 {
+					over = true
+				}
+				if st.Kind == "settings_win2" && sm.win+(int64(st.W)-initWin.eff()) > 1<<31-1 {
 					over = true
 				}
 			}
@@ -403,6 +409,11 @@ func c09Run(c c09Case, r *vp.Rec) (err error) {
 			}
 			if st.Kind == "settings_both" {
 				sendSettings(Setting{SettingInitialWindowSize, st.V}, Setting{SettingMaxFrameSize, st.W})
+			} else if st.Kind == "settings_win2" {
+				// RFC 9113 6.5.3: the values are processed in the order they appear, so the
+				// second one is what is in force afterwards
+				r.Class("settings-with-repeated-initial-window-size")
+				sendSettings(Setting{SettingInitialWindowSize, st.W}, Setting{SettingInitialWindowSize, st.V})
 			} else {
 				sendSettings(Setting{SettingInitialWindowSize, st.V})
 			}
